@@ -29,7 +29,7 @@ RULE = (
     "node, or a dispatch through a base-class method; distinct = distinct (tree fingerprint, rule set)"
 )
 ASSUMPTIONS = ["CPython's __mro__ is the reference for 'nearest class in its MRO'"]
-MUST_SEE = ["strictness_set_per_instance", "tuple_wider_than_256", "rules_attached_after_class_creation", "raised_BoomAttr", "raised_BoomKey", 
+MUST_SEE = ["dispatch_after_class_redefinition", "rules_using_the_children_helper", "strictness_set_per_instance", "tuple_wider_than_256", "rules_attached_after_class_creation", "raised_BoomAttr", "raised_BoomKey", 
     "remove_first", "remove_middle", "remove_last", "remove_all", "remove_single_optional", "unchanged_subtree_under_changed_root",
     "strict_base_only_generic", "raise_below_depth2", "dispatch_second_base", "unchanged_returns_self", "validate_mismatch_raised",
     "validate_ok", "frames_checked", "derived_visitor_after_base_used",
@@ -335,6 +335,7 @@ def run_shard(ctx):
 
         busy = rng.random() < 0.3
         boom_cls = rng.choice([Boom, BoomAttr, BoomAttr, BoomKey, BoomType, BoomStop])
+        via_helper = rng.random() < 0.4
         if busy:
             ctx.count("rules_that_traverse_and_serialize")
 
@@ -349,6 +350,19 @@ def run_shard(ctx):
                     return ASTTransformVisitor.generic_visit(self, node)
                 if action == "keep_nodescend":
                     return node
+                if action == "rewrite" and via_helper:
+                    # the documented helper: "a dictionary suitable for passing to dataclasses.replace"; the rule adds its own change to it
+                    f = rewritable(type(node).__name__)
+                    changes = self._transform_children(node)
+                    if f is None:
+                        return dataclasses.replace(node, **changes) if changes else node
+                    cur = changes.get(f.name, getattr(node, f.name))
+                    if isinstance(changes, dict):
+                        changes[f.name] = (cur + 1) if f.shape == "int" else (cur + "!")
+                    else:
+                        changes = {**changes, f.name: (cur + 1) if f.shape == "int" else (cur + "!")}
+                    ctx.count("rules_using_the_children_helper")
+                    return dataclasses.replace(node, **changes)
                 if action == "rewrite":
                     g = ASTTransformVisitor.generic_visit(self, node)
                     f = rewritable(type(node).__name__)
@@ -474,3 +488,38 @@ def run_shard(ctx):
         # which nodes are visited (and how often) follows from the rules; the order of visits is not specified
         if sorted(calls_real) != sorted(calls_ref):
             ctx.violation("transform-visited-nodes", "visitor methods were not called on exactly the nodes the rules prescribe", dict(detail, n_real=len(calls_real), n_ref=len(calls_ref)))
+
+
+_main_run_shard = run_shard
+
+
+def run_shard(ctx):  # noqa: F811 - the main loop, then a leg that needs a history of class definitions
+    _main_run_shard(ctx)
+    if ctx.only_case is not None:
+        return
+    from pyoak.visitor import ASTVisitor
+
+    U = core_universe()
+    P = U.P
+    log = []
+
+    class V(ASTVisitor):
+        strict = False
+
+        def generic_visit(self, node):
+            log.append("generic")
+            return "generic"
+
+    for base in (f"{P}Expr", f"{P}Stmt", f"{P}Leaf"):
+        setattr(V, f"visit_{base}", (lambda b: lambda self, node: log.append(b) or b)(base))
+    # one class name, defined three times with other bases: dispatch follows the bases of the class the node really has
+    for gen_no, base in enumerate((f"{P}Expr", f"{P}Stmt", f"{P}Leaf")):
+        src = f"@dataclass(frozen=True)\nclass {P}Again9({base}):\n    w: int = 0\n"
+        exec(compile(src, f"<c09 again {gen_no}>", "exec", dont_inherit=True), U.module.__dict__)
+        node = U.module.__dict__[f"{P}Again9"](w=gen_no)
+        del log[:]
+        ctx.evaluations += 1
+        ctx.count("dispatch_after_class_redefinition")
+        ret = V().visit(node)
+        if ret != base or log != [base]:
+            ctx.violation("dispatch", "visit() of an instance of a class defined again under its name (other bases) used another class's rule", {"bases_now": base, "called": list(log)})
